@@ -12,6 +12,7 @@ import StimModel.Model.Search
 import StimModel.Model.Explain
 import StimModel.Model.Flow
 import StimModel.Model.Rewrite
+import StimModel.Model.Noise
 /-! Line-protocol dispatcher: one request line in, one answer line out. -/
 namespace Stim.Driver
 open Stim Stim.Wire
@@ -1213,6 +1214,92 @@ def gencodeCheck (toks : List String) : String :=
         | none => "ok"
   | _ => "bad-request"
 
+/-! ### `noise check` (C05) -/
+def parseHist : Nat → List String → Option (List (OutcomeKey × Nat) × List String)
+  | 0, ts => some ([], ts)
+  | k+1, l :: f :: c :: ts => do
+      let letters ← parseP1s l
+      let cnt ← c.toNat?
+      let (more, rest) ← parseHist k ts
+      pure (({ letters := letters, flag := f == "1" }, cnt) :: more, rest)
+  | _, _ => none
+
+def parseNoiseApps : Nat → List String → Option (List (List Nat × List (OutcomeKey × Nat)) × List String)
+  | 0, ts => some ([], ts)
+  | k+1, "APP" :: nq :: ts => do
+      let (qs, rest) ← takeNats (← nq.toNat?) ts
+      match rest with
+      | nh :: rest => do
+        let (hist, rest) ← parseHist (← nh.toNat?) rest
+        let (more, rest2) ← parseNoiseApps k rest
+        pure ((qs, hist) :: more, rest2)
+      | [] => none
+  | _, _ => none
+
+def parseTriples : Nat → List String → Option (List (Nat × Nat × Nat) × List String)
+  | 0, ts => some ([], ts)
+  | k+1, a :: b :: c :: ts => do
+      let (more, rest) ← parseTriples k ts
+      pure ((← a.toNat?, ← b.toNat?, ← c.toNat?) :: more, rest)
+  | _, _ => none
+
+/-- `noise check <noise circuit> <N> <napps> (APP <nq> <q>... <nhist> (<letters> <flag> <count>)...)... <npairs> (<a> <b> <both-active>)...` -/
+def noiseCheck (toks : List String) : String :=
+  match parseCircuit toks with
+  | some (c, nS :: kS :: rest) =>
+    (match nS.toNat?, kS.toNat? with
+    | some N, some k =>
+      match parseNoiseApps k rest with
+      | some (obs, np :: rest) =>
+        (match parseTriples (np.toNat?.getD 0) rest with
+        | some (pairs, []) =>
+          let n := c.numQubits
+          let apps := c.channelApps
+          if apps.length != obs.length then s!"application-count model={apps.length} harness={obs.length}"
+          else
+            let dists := (apps.zip obs).map fun (app, (qs, _)) => appDistribution n qs app
+            let bad := ((apps.zip obs).zipIdx).findSome? fun ((app, (qs, hist)), i) =>
+              if !(appQubits app).all (qs.contains ·) then some s!"application {i} touches other qubits than the harness assumed"
+              else (checkHistogram N (appDistribution n qs app) hist).map fun r => s!"{r} application={i}"
+            match bad with
+            | some r => r
+            | none =>
+              let badPair := pairs.findSome? fun (a, b, cnt) =>
+                let pa := appActive (dists.getD a [])
+                let pb := appActive (dists.getD b [])
+                if countPlausible N cnt (pa * pb) then none
+                else some s!"applications-not-independent {a} {b} both-active={cnt} of {N} expected-p={pa * pb}"
+              badPair.getD "ok"
+        | _ => "bad-request")
+      | _ => "bad-request"
+    | _, _ => "bad-request")
+  | _ => "bad-request"
+
+/-- `noise dem <N> <k> (<p-bits> <count>)... <npairs> (<a> <b> <both>)...`: errors of a detector error model fire independently with their probability -/
+def noiseDem (toks : List String) : String :=
+  match toks with
+  | nS :: kS :: rest =>
+    (match nS.toNat?, kS.toNat? with
+    | some N, some k =>
+      match takeNats (2 * k) rest with
+      | some (flat, np :: rest) =>
+        (match parseTriples (np.toNat?.getD 0) rest with
+        | some (pairs, []) =>
+          let ps : List (Rat × Nat) := (List.range k).map fun i => (ratOfBits (flat.getD (2 * i) 0), flat.getD (2 * i + 1) 0)
+          let bad := (ps.zipIdx).findSome? fun ((p, c), i) =>
+            if countPlausible N c p then none else some s!"implausible-count error={i} count={c} of {N} p={p}"
+          match bad with
+          | some r => r
+          | none =>
+            (pairs.findSome? fun (a, b, cnt) =>
+              let pa := (ps.getD a (0, 0)).1
+              let pb := (ps.getD b (0, 0)).1
+              if countPlausible N cnt (pa * pb) then none else some s!"errors-not-independent {a} {b} both={cnt} of {N}").getD "ok"
+        | _ => "bad-request")
+      | _ => "bad-request"
+    | _, _ => "bad-request")
+  | _ => "bad-request"
+
 def answer (toks : List String) : String :=
   match toks with
   | "tsim" :: "check" :: rest => tsimCheck rest
@@ -1235,6 +1322,8 @@ def answer (toks : List String) : String :=
   | "circ" :: "qcoords" :: rest => circQCoords rest
   | "explain" :: "check" :: rest => explainCheck rest
   | "flow" :: rest => flowCmd rest
+  | "noise" :: "check" :: rest => noiseCheck rest
+  | "noise" :: "dem" :: rest => noiseDem rest
   | "gencode" :: "check" :: rest => gencodeCheck rest
   | "rewrite" :: rest => rewriteCmd rest
   | "dem" :: "check" :: rest => demCheck rest
